@@ -70,7 +70,7 @@ def check_tables(w, when):
 
 def truthy(props, name):
     v = props.get(PROP_OF[name])
-    return v is not None and v != '' and v != 'None'
+    return v is not None and v != ''      # (the text 'None' is a value like any other on the in-memory backends)
 
 
 def validate_expected(st, flavour):
